@@ -126,7 +126,27 @@ static int __attribute__((noinline)) call_main(Editor &ed, std::vector<char *> &
 	return ed.nv_main((int) argv.size() - 1, argv.data());
 }
 
+static RunResult run_single(const Plan &plan, Check &check, const std::string &lib);
+
 RunResult run_plan(const Plan &plan, Check &check, const std::string &lib)
+{
+	Plan tw;
+	if (check.twin(plan, tw)) {
+		check.set_phase(1);
+		RunResult rb = run_single(tw, check, lib);
+		check.set_phase(2);
+		if (rb.outcome == OUT_PLAN_END && starts_with(rb.outcome_note, "cannot load")) return rb;
+		RunResult ra = run_single(plan, check, lib);
+		ra.calls += rb.calls;
+		ra.sim_ns += rb.sim_ns;
+		check.set_phase(0);
+		return ra;
+	}
+	check.set_phase(0);
+	return run_single(plan, check, lib);
+}
+
+static RunResult run_single(const Plan &plan, Check &check, const std::string &lib)
 {
 	RunResult res;
 	Editor ed;
